@@ -14,14 +14,14 @@ MAX_POOL = [4, 1, 2, 3, 5, 6, 8]
 
 
 def q6(ip, fp):
-    return (64 * ip + (64 * fp + 500) // 1000) & 0xffff
+    return (64 * ip + (64 * fp + 500) // 1000) & 0xffffffff
 
 
 def calc_timeout(at_ip, at_fp, arf_ip, arf_fp, r):
     A, F = q6(at_ip, at_fp), q6(arf_ip, arf_fp)
-    r1 = (((F - 64) * r + 128) >> 8) & 0xffffffff
-    r2 = ((((r1 + 64) & 0xffffffff) * A & 0xffffffff) + 32 & 0xffffffff) >> 6
-    return ((1000 * r2 + 32) >> 6) & 0xffffffff
+    r1 = (((F - 64) & 0xffffffff) * r + 128) >> 8
+    r2 = ((r1 + 64) * A + 32) >> 6
+    return min((1000 * r2 + 32) >> 6, 0xffffffff)
 
 
 def line_of(case):
@@ -37,12 +37,20 @@ def hexb(bs):
     return "".join("%02x" % b for b in bs) if bs else "-"
 
 
-def rand_cfg(r, nstart=1, small=True):
+def rand_cfg(r, nstart=1, small=True, refused=False):
     at = r.choice(AT_POOL[:12] if small else AT_POOL)
     arf = r.choice(ARF_POOL[:10] if small else ARF_POOL)
-    if r.random() < 0.35:
+    mx = r.choice(MAX_POOL)
+    x = r.random()
+    if x < 0.30:
         at, arf = (2, 0), (1, 500)
-    return (at[0], at[1], arf[0], arf[1], r.choice(MAX_POOL), nstart)
+    elif x < 0.40 and refused:
+        # values the setters refuse: whatever the library then reports (its defaults) is in force;
+        # only used where the case does not depend on knowing MAX_RETRANSMIT (one message)
+        at = r.choice([(0, 0), (0, 500), (3, 1000), (2, 65535), at])
+        arf = r.choice([(0, 999), (1, 1000), (0, 0), arf])
+        mx = r.choice([0, 0, mx])
+    return (at[0], at[1], arf[0], arf[1], mx, nstart)
 
 
 def rand_msg(r, sess, mid=None, request=None):
@@ -58,6 +66,10 @@ def rand_msg(r, sess, mid=None, request=None):
     pay = hexb([r.randrange(256) for _ in range(pl)]) if pl <= 16 else "@%d,%d" % (pl, r.randrange(100))
     rb = r.choice(R_BOUNDS) if r.random() < 0.5 else r.randrange(256)
     return ["S", sess, mid, code, tok, pay, rb]
+
+
+def eff_max(cfg):
+    return cfg[4] if cfg[4] > 0 else 4
 
 
 def drain(n, k=0):
@@ -83,10 +95,10 @@ def ack_event(r, msg, kind=None):
 # ---------------------------------------------------------------- single message, schedule
 def gen_schedule_case(r, cfg=None, late=None):
     """one message, nobody answers; punctual / late / early driver until long after the NACK"""
-    cfg = cfg or rand_cfg(r, small=r.random() < 0.8)
+    cfg = cfg or rand_cfg(r, small=r.random() < 0.8, refused=True)
     msg = rand_msg(r, 0)
     ev = [msg]
-    n = cfg[4] + 3
+    n = eff_max(cfg) + 3
     if late is None:
         late = r.choice(["punctual", "punctual", "late", "early", "mixed"])
     for i in range(n):
@@ -112,7 +124,7 @@ def gen_drop_case(cfg, rbyte, drops, delay, kind, dup=False):
     through (if any) is the one to the first transmission j with 2j and 2j+1 both kept; it
     arrives `delay` ticks after that transmission.  dup: the answer is delivered twice."""
     msg = ["S", 0, 4660, 1 if kind != "K" else 69, "a1b2", "-", rbyte]
-    mx = cfg[4]
+    mx = eff_max(cfg)
     ev = [msg]
     j_ok = None
     for j in range(mx + 1):
@@ -211,7 +223,7 @@ def gen_multi_case(r, big=False, with_disconnect=None):
         else:
             ev.append(["R" if r.random() < 0.5 else "K", r.randrange(ns), r.randrange(65536)])
         no_empty_ack_for_request(ev, sent)
-    mx = max(c[4] for c in cfgs)
+    mx = max(eff_max(c) for c in cfgs)
     ev += drain(r.choice([1, 2, mx + 3, (mx + 2) * max(1, len(sent))]))
     ev += [["T"], ["Q"]]
     return {"cfgs": cfgs, "ev": ev, "kind": "multi-big" if big else "multi"}
@@ -223,7 +235,7 @@ def gen_nstart1_case(r):
     the previous one ended (answer injected, or drained past the give-up)"""
     ns = r.choice([1, 2, 3])
     cfgs = [rand_cfg(r, nstart=1) for _ in range(ns)]
-    mx = max(c[4] for c in cfgs)
+    mx = max(eff_max(c) for c in cfgs)
     ev = []
     busy = [None] * ns
     mid = [r.randrange(65536) for _ in range(ns)]
@@ -279,7 +291,7 @@ def gen_cancel_case(r):
     if r.random() < 0.4:
         v2 = r.choice(sent)
         ev += [["T"], ["W", 0], ["N", v2[1], r.randrange(65536), 69, v2[4]], ["Q"]]
-    mx = max(c[4] for c in cfgs)
+    mx = max(eff_max(c) for c in cfgs)
     ev += drain(r.choice([2, mx + 3, (mx + 2) * len(sent)]))
     ev += [["T"], ["Q"]]
     return {"cfgs": cfgs, "ev": ev, "kind": "cancel"}
@@ -292,7 +304,7 @@ def gen_separate_case(r):
     the waits are compared one-sidedly"""
     cfg = rand_cfg(r)
     m = rand_msg(r, 0, request=True)
-    ev = [m] + drain(r.randrange(0, cfg[4] + 1))
+    ev = [m] + drain(r.randrange(0, eff_max(cfg) + 1))
     ev += [["T"], ["A", r.choice([0, 1, 500, 1999])], ["K", 0, m[2]]]
     for _ in range(r.randrange(1, 5)):
         ev += [["A", r.choice([1, 2000, 10000, 100000])], ["T"]]
@@ -332,8 +344,8 @@ def gen_qops(r, with_adjust=False):
 
 
 def settings_grid(tier):
-    ats = AT_POOL + [(1023, 0), (1023, 992), (1023, 993), (1024, 0), (2048, 500), (65535, 999)]
-    arfs = ARF_POOL + [(1023, 999), (1024, 0), (4, 0), (65535, 0)]
+    ats = AT_POOL + [(1023, 0), (1023, 992), (1023, 993), (1024, 0), (2048, 500), (65535, 999), (4294, 967), (4295, 0)]
+    arfs = ARF_POOL + [(1023, 999), (1024, 0), (4, 0), (65535, 0), (65535, 999), (66, 0)]
     if tier != "quick":
         ats += [(i, f) for i in (1, 2, 3, 4, 9, 100, 511, 512, 1000) for f in (0, 15, 16, 124, 125, 126, 499, 500, 992, 993)]
         arfs += [(i, f) for i in (1, 2, 3, 4, 8) for f in (0, 7, 8, 15, 16, 125, 500, 750, 992, 993, 999)]
